@@ -79,6 +79,16 @@ func Fixed(quick, thorough int) func(bool) int {
 	}
 }
 
+// shardOf assigns case i to a shard by a hash of i: enumerated spaces often put their expensive cases at indices
+// with a common residue, which a plain i mod n would all hand to the same process.
+func shardOf(i, n int) int {
+	x := uint64(i) + 0x9e3779b97f4a7c15
+	x = (x ^ (x >> 30)) * 0xbf58476d1ce4e5b9
+	x = (x ^ (x >> 27)) * 0x94d049bb133111eb
+	x ^= x >> 31
+	return int(x % uint64(n))
+}
+
 // RunShard executes this shard's share of every phase.
 func RunShard(c *Ctx, progress *os.File) {
 	p := c.Prop
@@ -90,7 +100,7 @@ func RunShard(c *Ctx, progress *os.File) {
 				if c.Shard != 0 {
 					break
 				}
-			} else if i%c.NShards != c.Shard {
+			} else if shardOf(i, c.NShards) != c.Shard {
 				continue
 			}
 			if progress != nil {
@@ -116,7 +126,7 @@ func RunShard(c *Ctx, progress *os.File) {
 		n := ph.N(c.Thorough)
 		var mine []int
 		for i := 0; i < n && len(mine) < 25; i++ {
-			if i%c.NShards == c.Shard {
+			if shardOf(i, c.NShards) == c.Shard {
 				mine = append(mine, i)
 			}
 		}
@@ -146,7 +156,7 @@ func RunShard(c *Ctx, progress *os.File) {
 		n := ph.N(c.Thorough)
 		done := 0
 		for i := 0; i < n && done < 25; i++ {
-			if i%c.NShards != c.Shard {
+			if shardOf(i, c.NShards) != c.Shard {
 				continue
 			}
 			done++
